@@ -813,12 +813,12 @@ class ValueDecimal(Value):
     def __eq__(self, other):
         if not other.isNumerical():
             return False
-        return self.value == other.asDecimal().value
+        return self.value == other.value
 
     def __lt__(self, other):
         if not other.isNumerical():
             return str(self) < str(other)
-        return self.value < other.asDecimal().value
+        return self.value < other.value
 
     def __repr__(self):
         result = repr(self.value)
@@ -942,15 +942,13 @@ class ValueInt(Value):
     def __eq__(self, other):
         if not other.isNumerical():
             return False
-        if isinstance(other, ValueDecimal):
-            return self.asDecimal() == other
+        # (an int and a decimal are compared exactly, not through a
+        # conversion of the int to a decimal)
         return self.value == other.value
 
     def __lt__(self, other):
         if not other.isNumerical():
             return str(self) < str(other)
-        if isinstance(other, ValueDecimal):
-            return self.asDecimal() < other
         return self.value < other.value
 
     def __repr__(self):
@@ -966,7 +964,7 @@ class ValueInt(Value):
         return self
 
     def asDecimal(self):
-        return ValueDecimal(self.value)
+        return ValueDecimal(float(self.value))
 
     def asBoolean(self):
         return ValueBoolean.fromval(self.value != 0)
